@@ -80,6 +80,11 @@ void vf_string_ctor_copy(vf_string *s, const vf_string *o)
   size_t n = o->size;
   char *d = (char *)vf_malloc(n + 1);
   for (size_t i = 0; i < n; ++i)
+#ifdef VF_MODEL_LOOP_CONTRACTS
+    __CPROVER_assigns(i, __CPROVER_object_whole(d))
+    __CPROVER_loop_invariant(i <= n && (vf_gc < i ==> d[vf_gc] == o->data[vf_gc]))
+    __CPROVER_decreases(n - i)
+#endif
     d[i] = o->data[i];
   d[n] = 0;
   s->data = d;
@@ -263,6 +268,14 @@ void vf_stream_read(vf_stream *f, char *dst, long n)
   if (n > 0)
     k = (size_t)n < avail ? (size_t)n : avail;
   for (size_t i = 0; i < k; ++i)
+#ifdef VF_MODEL_LOOP_CONTRACTS
+    __CPROVER_assigns(i, __CPROVER_object_upto(dst, k))
+    __CPROVER_loop_invariant(i <= k)
+    __CPROVER_loop_invariant(vf_gc < i ==> (unsigned char)dst[vf_gc] == f->buf[(size_t)f->pos + vf_gc])
+    __CPROVER_loop_invariant((0 < i ==> (unsigned char)dst[0] == f->buf[(size_t)f->pos]) && (1 < i ==> (unsigned char)dst[1] == f->buf[(size_t)f->pos + 1]) &&
+                             (2 < i ==> (unsigned char)dst[2] == f->buf[(size_t)f->pos + 2]) && (3 < i ==> (unsigned char)dst[3] == f->buf[(size_t)f->pos + 3]))
+    __CPROVER_decreases(k - i)
+#endif
     dst[i] = (char)f->buf[(size_t)f->pos + i];
   f->pos += (long)k;
   if (n < 0 || k != (size_t)n) {
@@ -295,6 +308,13 @@ void vf_stream_write(vf_stream *f, const char *src, long n)
     return;
   }
   for (size_t i = 0; i < k; ++i)
+#ifdef VF_MODEL_LOOP_CONTRACTS
+    __CPROVER_assigns(i, __CPROVER_object_whole(f->buf))
+    __CPROVER_loop_invariant(i <= k)
+    __CPROVER_loop_invariant((vf_gb >= (size_t)f->pos && vf_gb < (size_t)f->pos + i) ==> f->buf[vf_gb] == (unsigned char)src[vf_gb - (size_t)f->pos])
+    __CPROVER_loop_invariant((vf_gb < f->cap && !(vf_gb >= (size_t)f->pos && vf_gb < (size_t)f->pos + i)) ==> f->buf[vf_gb] == __CPROVER_loop_entry(f->buf[vf_gb]))
+    __CPROVER_decreases(k - i)
+#endif
     f->buf[(size_t)f->pos + i] = (unsigned char)src[i];
   f->pos += (long)k;
   if ((size_t)f->pos > f->len)
